@@ -170,5 +170,36 @@ theorem nextUseAux_dict (mask : List Bool) (epl : Nat) (rows : List CRow) (p : L
     · simp [h]
     · simp [h, ih]
 
+theorem nextUse_eq_spec (mask : List Bool) (epl : Nat) (rows : List CRow) :
+    nextUse mask epl rows = nextUseSpec mask epl rows := by
+  unfold nextUse
+  induction rows with
+  | nil => rfl
+  | cons r rest ih => simp only [nextUseAux, nextUseSpec, nextUseAux_dict, ih]
+
+/-- searching the accesses by line = searching the rows by line -/
+theorem find_map_spec (mask : List Bool) (epl : Nat) (shape : Option Nat) (p : List Nat) :
+    ∀ (l : List CRow),
+      (((nextUseSpec mask epl l).map (mkAcc mask epl shape)).find?
+          (fun x => decide (x.point = p))).map (·.stamp)
+        = (l.find? (fun x => decide (x.line mask epl = p))).map (·.stamp)
+  | [] => rfl
+  | r :: rest => by
+    simp only [nextUseSpec, List.map_cons, List.find?_cons]
+    by_cases h : r.line mask epl = p
+    · simp [mkAcc, h]
+    · simp only [mkAcc, h, decide_false]
+      exact find_map_spec mask epl shape p rest
+
+theorem accsOf_stamps (mask : List Bool) (epl : Nat) (shape : Option Nat) (rows : List CRow) :
+    (accsOf mask mask epl shape rows).map (·.stamp) = rows.map (·.stamp) := by
+  unfold accsOf
+  rw [nextUse_eq_spec]
+  induction rows with
+  | nil => rfl
+  | cons r rest ih =>
+    simp only [nextUseSpec, List.map_cons, List.cons.injEq]
+    exact ⟨rfl, ih⟩
+
 end Traffic
 end Ft
